@@ -158,6 +158,35 @@ def run_file(case, r):
             r.check(False, 'no-overwrite', f'{tag}: initialize() on an existing file did not raise although ALLOW_OVERWRITE is False')
         except FileExistsError:
             r.check(open(path, 'rb').read() == before, 'no-overwrite', f'{tag}: existing file changed by a refused initialize()')
+        # ---- overwrite protection does not depend on what the existing file contains: empty, shorter than the new header,
+        # another valid (smaller) FieldsIO file with records, a long foreign file
+        small = os.path.join(tmp, 'small.pysdc')
+        fs = Scalar(np.float64, small)
+        fs.setHeader(nVar=1)
+        fs.initialize()
+        for i in range(3):
+            fs.addField(float(i), np.array([float(i)]))
+        victims = {'empty': b'', 'short': bytes(rng.integers(0, 256, int(rng.integers(1, max(2, hsize))), dtype=np.uint8)), 'other-fieldsio-file-with-records': open(small, 'rb').read(),
+                   'long': bytes(rng.integers(0, 256, hsize + int(rng.integers(1, 500)), dtype=np.uint8))}
+        for vname, content in victims.items():
+            vp = os.path.join(tmp, f'victim_{vname}.pysdc')
+            with open(vp, 'wb') as fh:
+                fh.write(content)
+            f3, *_ = make(case, vp, np.random.default_rng(case['seed']))
+            try:
+                f3.initialize()
+                r.check(False, 'no-overwrite', f'{tag}: initialize() replaced an existing {vname} file of {len(content)} bytes (new header {hsize} bytes) although ALLOW_OVERWRITE is False')
+            except FileExistsError:
+                r.check(open(vp, 'rb').read() == content, 'no-overwrite', f'{tag}: existing {vname} file changed by a refused initialize()')
+            r.count('overwrite_victims')
+        FieldsIO.ALLOW_OVERWRITE = True
+        try:
+            vp = os.path.join(tmp, 'victim_short.pysdc')
+            f4, *_ = make(case, vp, np.random.default_rng(case['seed']))
+            f4.initialize()
+            r.check(os.path.getsize(vp) == hsize and FieldsIO.fromFile(vp).nFields == 0, 'overwrite-when-enabled', f'{tag}: with ALLOW_OVERWRITE enabled initialize() did not produce a fresh file')
+        finally:
+            FieldsIO.ALLOW_OVERWRITE = False
         # ---- append through the re-opened object, interleaved with reads
         for i in range(case['k']):
             t = float(rng.uniform(0, 10))
